@@ -14,9 +14,14 @@ package markdown
 
 //@ pred mdCellsFresh(cells []tabular.Cell) = forall i int :: {cells[i].mustCalc} 0 <= i && i < len(cells) ==> !cells[i].mustCalc
 
+//@ -- mdEsc(s): HTML-escape, then pipes and line feeds as numeric entities; mdPad: spaces only, by alignment
+//@ spec mdEsc(s Str) Str = replAll(replAll(htmlEsc(s), "|", "&#x7c;"), "\n", "&#x0a;")
+//@ spec mdPad(b Str, w int, a Iface) Str = W(b) >= w ? b : ((a != nil && isRight(a) && !isLeft(a)) ? cat(repeat(" ", w - W(b)), b) : ((a != nil && isCenter(a) && !isLeft(a) && !isRight(a)) ? cat(cat(repeat(" ", (w - W(b)) / 2), b), repeat(" ", (w - W(b)) - (w - W(b)) / 2)) : cat(b, repeat(" ", w - W(b)))))
+
 //@ func (*MarkdownTable).mdCellEscape
 //@   tags C08,C09
 //@   assigns nothing
+//@   ensures [escaped-text] result == mdEsc(in) @C08
 //@   ensures [no-raw-pipe-or-linefeed] pipes(result) == 0 && lfs(result) == 0 @C08
 
 //@ func (*MarkdownTable).mdPaddedCellEscape
@@ -24,6 +29,7 @@ package markdown
 //@   requires 0 <= i && i < len(cells) && i < len(widths) && i < len(alignments) && mdCellsFresh(cells)
 //@   assigns nothing
 //@   ensures [no-raw-pipe] pipes(result) == 0 @C08
+//@   ensures [escaped-text-padded-with-spaces-only] result == mdPad(mdEsc(cells[i].str), widths[i], alignments[i]) @C08
 
 //@ func (*MarkdownTable).emitRow
 //@   tags C08,C15,C09
